@@ -82,6 +82,8 @@ Definition ex_gsv' : server := the_result (apply_entry Examples.ex_env ex_gsv ex
 Definition ex_join_bad : entry := EMessage 15 15000 12 33 "" "JOIN #chan guess".
 Definition ex_gsv'' : server := the_result (apply_entry Examples.ex_env ex_gsv ex_join_bad).
 
+Definition the_out (o : outcome) : list omsg := match o with OOk _ out => out | _ => [] end.
+
 Example ex_gate_nonvacuous :
   let s := the_session ex_gsv (12%N, 0%N) in let c := the_chan ex_gsv "#chan" in let c' := the_chan ex_gsv' "#chan" in
   exists out out2,
@@ -95,8 +97,9 @@ Example ex_gate_nonvacuous :
     apply_entry Examples.ex_env ex_gsv ex_join_bad = OOk ex_gsv'' out2 /\ sv_channels ex_gsv'' !! "#chan" = Some c.
 Proof.
   cbv zeta.
+  exists (the_out (apply_entry Examples.ex_env ex_gsv ex_join)), (the_out (apply_entry Examples.ex_env ex_gsv ex_join_bad)).
   (* everything decidable at once: one evaluation of the history *)
-  assert (H : exists out out2,
+  assert (H :
      (Examples.wf_history_b Examples.ex_env (init_server "robustirc.net") ex_gate_prefix,
       run Examples.ex_env (init_server "robustirc.net") ex_gate_prefix,
       apply_entry Examples.ex_env ex_gsv ex_join, sv_sessions ex_gsv !! (12%N, 0%N),
@@ -105,11 +108,11 @@ Proof.
       c_nicks (the_chan ex_gsv "#chan") !! "baz", is_chanop_b ex_gsv (12%N, 0%N) "#chan",
       sv_channels ex_gsv' !! "#chan", c_nicks (the_chan ex_gsv' "#chan") !! "baz",
       apply_entry Examples.ex_env ex_gsv ex_join_bad, sv_channels ex_gsv'' !! "#chan") =
-     (true, Some ex_gsv, OOk ex_gsv' out, Some (the_session ex_gsv (12%N, 0%N)), false, false,
+     (true, Some ex_gsv, OOk ex_gsv' (the_out (apply_entry Examples.ex_env ex_gsv ex_join)),
+      Some (the_session ex_gsv (12%N, 0%N)), false, false,
       Some (the_chan ex_gsv "#chan"), true, "secret", None, false, Some (the_chan ex_gsv' "#chan"), Some (false, false),
-      OOk ex_gsv'' out2, Some (the_chan ex_gsv "#chan"))).
-  { eexists _, _. vm_compute. reflexivity. }
-  destruct H as (out & out2 & H). exists out, out2.
+      OOk ex_gsv'' (the_out (apply_entry Examples.ex_env ex_gsv ex_join_bad)), Some (the_chan ex_gsv "#chan"))).
+  { vm_compute. reflexivity. }
   injection H as H1 H2 H3 H4 H5 H6 H7 H8 H9 H10 H11 H12 H13 H14 H15.
   split; [now apply (run_EInv ex_gate_prefix)|]. repeat (split; [assumption|]).
   split; [now apply is_chanop_b_false|]. repeat (split; [assumption|]). assumption.
